@@ -119,6 +119,15 @@ func gen(r *harn.Rng, tier string) interface{} {
 	}
 	if r.Bool(0.3) {
 		sc.ListenerCloseAtNs = gaps[2+r.Intn(len(gaps)-2)] * int64(r.Pick(1, 2))
+		if r.Bool(0.4) {
+			// the connections are closed at the very instant the listener is: all Close calls are
+			// runnable together
+			for i := range sc.ConnCloseAtNs {
+				if sc.ConnCloseAtNs[i] > 0 {
+					sc.ConnCloseAtNs[i] = sc.ListenerCloseAtNs
+				}
+			}
+		}
 	}
 	if r.Bool(0.3) {
 		sc.AcceptGapNs = gaps[r.Intn(len(gaps))]
